@@ -594,7 +594,12 @@ def _relaxed_dist(case, th):
         # value = row 0, gradient with respect to EVERY row j = the gradient with respect to that one row
         par = par.sum(0, keepdim=True) - (B - 1) * par[:1].detach()
     va = {"validate_args": True} if case.get("validate") else {}
-    d = cls(**{case["param"]: par}, **va)
+    if case.get("dpos"):
+        # positional construction in the documented order: LogisticBernoulli(probs, logits), GumbelOneHotCategorical(logits, probs)
+        first = "probs" if case["dtype"] == "bern" else "logits"
+        d = cls(par, **va) if case["param"] == first else cls(None, par, **va)
+    else:
+        d = cls(**{case["param"]: par}, **va)
     _touch(d, case.get("pre"))
     if ex:
         d = d.expand([B])
@@ -2043,6 +2048,7 @@ def vary_est(rng, c):
         c["slayout"] = rng.random() < 0.5
     if k in ("st", "relax", "reparam"):
         c["pre"] = rng.choice([None, "probs", "logits", "both", "both2"])
+        c["dpos"] = rng.random() < 0.35
         c["twice"] = rng.random() < 0.6
         if k == "relax":
             c["cvp"] = rng.random() < 0.5
@@ -2101,12 +2107,15 @@ def gen_audit_est(rng, quick):
     if c.get("dtype") == "srswor":
         c["ctor"] = rng.choice(["kw", None])
         return c
+    if quick and c["kind"] in ("direct", "is") and c["V"] ** c["n"] > 4:
+        c["M"] = 1       # (cost of the exact model: the whole space of sample tuples is evaluated)
     return vary_est(rng, c)
 
 
 def gen_audit_dist(rng):
     c = gen_dist(rng)
     c["pre"] = rng.choice([None, "probs", "logits", "both", "both2"])
+    c["dpos"] = rng.random() < 0.35
     c["playout"] = rng.choice(["step", "off", "tct", None])
     c["validate"] = rng.random() < 0.5
     if c["B"] == 2 and rng.random() < 0.6:
@@ -2150,7 +2159,7 @@ def gen_audit_comb(rng):
 
 def gen_audit(chk, rng):
     quick = chk.tier != "thorough"
-    n_est, n_dist, n_comb = (40, 24, 80) if quick else (320, 200, 640)
+    n_est, n_dist, n_comb = (40, 14, 70) if quick else (320, 120, 640)
     cases = []
     for _ in range(n_est):
         cases.append(gen_audit_est(rng, quick))
@@ -2197,6 +2206,17 @@ def run(chk, cases=None):
         "model is fed the HARNESS's float64 log_softmax / sigmoid of the logits that were handed over, and the distribution's own "
         "logits / probs are compared with them (1e-12 / 1e-9 relative); csample's closed form is compared only while eps-clamping of "
         "probs is inactive and the 2^-64 fixed-point model keeps 1e-9 (1e-8 <= p <= 1 - 1e-8)",
+        "robustness audit (stream 'audit'): the logical case is judged by the same Coq terms; what varies is the constructor call "
+        "(positional / keyword), the memory layout of the parameter tensors (non-contiguous views inside the autograd graph: "
+        "gradients are taken w.r.t. the view) and of the sample tensor, validate_args=True, the call history of the relaxed "
+        "distributions (probs / logits read lazily before use, expand() of a one-row distribution to the batch, reads after "
+        "expand), the same estimator object called again on the same randomness (relaxed estimators, Metropolis-Hastings), "
+        "RelaxEstimator with proposal_params / cv_params (same value and distribution-parameter gradient as the plain call), cv IS "
+        "func for DirectEstimator; combinatorics: int32 / int64 / float32 / float64 counts, non-contiguous / stride-0 / 0-dim "
+        "broadcast counts, keyword calls, out_size=None vs explicit, torch.jit.script(binomial_coefficient), broadcasting a column "
+        "of lengths against a row of counts, inputs left untouched, SimpleRandomSamplingWithoutReplacement.expand() before / after "
+        "log_partition was read.  Situations with a guaranteed share: RELAX with a NEGATIVE per-call average, Direct with a "
+        "sample-dependent control variate and differentiable cv_mean, relaxed distributions from logits= and probs=, proposal IS density",
     ]
     cases = cases if cases is not None else gen_cases(chk)
     evs, terms, where = [], [], []
@@ -2217,7 +2237,7 @@ def run(chk, cases=None):
                 chk.count(f"{opt}={c[opt]}")
         if stream == "audit":
             chk.count("audit:" + _key(c))
-            for opt in ("ctor", "playout", "validate", "slayout", "pre", "pre2", "expand", "twice", "cvp", "cv_alias", "kw", "cdtype",
+            for opt in ("ctor", "dpos", "playout", "validate", "slayout", "pre", "pre2", "expand", "twice", "cvp", "cv_alias", "kw", "cdtype",
                         "clayout", "none_out", "script", "outer", "pre_lp"):
                 if opt in c:
                     chk.count("audit.%s=%s" % (opt, c[opt]))
